@@ -478,13 +478,18 @@ def gen_invivo_ops(rng, n_modules=None, size=None, p_history=0.35):
     size = size or rng.choice([2, 4, 6])
     files = projgen.gen_project(rng, n_modules, size)
     lang = "python"
-    if rng.random() < 0.3:
+    if rng.random() < 0.4:
         # files from the repository's own corpora in other languages (the default handler table is per language)
         from sim.core import REPO_DIR
         sub, ext, lang_ = rng.choice([("dataflows/javascript", ".js", "javascript"), ("lang_parser/javascript", ".js", "javascript"),
                                       ("lang_parser/java", ".java", "java"), ("dataflows/java", ".java", "java"),
                                       ("lang_parser/go", ".go", "go"), ("lang_parser/php", ".php", "php"), ("import/js", ".js", "javascript"),
-                                      ("lang_parser/typescript", ".ts", "typescript"), ("lang_parser/typescript", ".ts", "typescript")])
+                                      ("lang_parser/typescript", ".ts", "typescript"), ("lang_parser/typescript", ".ts", "typescript"),
+                                      # real-world Python (vendored CVE projects) and the test corpora of the Python front-end
+                                      ("real_cases", ".py", "python"), ("real_cases", ".py", "python"), ("dataflows/python", ".py", "python"),
+                                      ("import/python", ".py", "python"), ("lang_parser/python", ".py", "python"),
+                                      ("motivativing_examples", ".py", "python"), ("lang_parser/ruby", ".rb", "ruby"),
+                                      ("lang_parser/smali", ".smali", "smali"), ("real_cases", ".java", "java"), ("dataflows/c", ".c", "c")])
         cands = []
         for root, dirs, fns in os.walk(os.path.join(REPO_DIR, "tests", sub)):
             dirs.sort()
